@@ -1562,6 +1562,8 @@ def swarm_config(seed, faults):
     groups["inplace"] = max(groups["inplace"], 0.5)
     return {
         "dims": dims,
+        "dims_ext": [rnd.choice(sizes) for _ in range(rnd.randint(0, 2))] + dims + [rnd.choice(sizes) for _ in range(rnd.randint(0, 2))],
+        "window_p": rnd.choice((0.0, 0.3, 0.6)),
         "max_rank": rnd.choice((1, 2, 3, 4)),
         "p_one": rnd.choice((0.2, 0.4, 0.7)),
         "layouts": rnd.choice((["C"], ["C"], ["C"], ["C", "T"], list(gen.LAYOUTS))),
@@ -1583,6 +1585,13 @@ def swarm_config(seed, faults):
 def _new_record(ctx, kind=None):
     rnd, cfg = ctx.rnd, ctx.cfg
     dims = cfg["dims"]
+    if kind is None and rnd.random() < cfg.get("window_p", 0.0):
+        # objects of other orders over a window of the extended dimension family: gives tensordot / concatenate
+        # operands of different lengths whose boundary modes still line up
+        ext = cfg["dims_ext"]
+        n = rnd.randint(1, len(ext))
+        st = rnd.randint(0, len(ext) - n)
+        dims = ext[st:st + n]
     d = len(dims)
     kind = kind or rnd.choice(("vec", "vec", "op", "gen"))
     rows = list(dims)
@@ -1628,7 +1637,7 @@ def _directed(ctx):
             if ci == 0 and d >= 2:
                 cands.append((3 if fl else 1, {"op": "ortho_left", "in": {"self": i}, "dest": [], "args": {}}))
             if is_vec(m) and d >= 2 and 1 <= ci + 1 <= d - 1:
-                cands.append((2, {"op": "svd", "in": {"self": i}, "dest": ctx.dest(2),
+                cands.append((6, {"op": rnd.choice(("svd", "pinv")), "in": {"self": i}, "dest": ctx.dest(2),
                                   "args": {"index": ci + 1, "ortho_l": False, "ortho_r": False, "overwrite": True}}))
         cands.append((1, {"op": "ortho", "in": {"self": i}, "dest": [], "args": {}}))
     if not cands:
@@ -1673,6 +1682,9 @@ def _choose(ctx):
         rec = _directed(ctx)
         if rec is not None:
             run.probes["directed_choice"] += 1
+            if cfg["fault_rate"] and "F-gesdd" in cfg["fault_kinds"] and rec["op"].startswith("ortho") and rnd.random() < 0.6:
+                # the retry (gesvd, overwrite_a=True) is the one place where a sweep still writes in place
+                rec["faults"] = [{"kind": "F-gesdd", "nth": 1}]
             return rec
     if ctx.history and rnd.random() < cfg.get("repeat_p", 0.0):
         # the same call once more, with identical arguments (same sub-seed => same generated data): results of two
@@ -1717,7 +1729,7 @@ def generate_and_run(seed, faults, keep_events=False):
             rec.setdefault("sub_seed", fresh)
             if rec["op"] != "new":
                 fl = _faults(rnd, cfg)
-                if fl:
+                if fl and "faults" not in rec:
                     rec["faults"] = fl
                 if cfg.get("clock_jumps"):
                     rec["clock_seed"] = rnd.getrandbits(32)
